@@ -151,6 +151,10 @@ M = [
  ('der-ignores-quadrature-states', 'stage.py', "        x = vertcat(self.x, self.xq)\n        xdot = lambda res: vertcat(res[\"ode\"], res[\"quad\"])", "        x = self.x\n        xdot = lambda res: res[\"ode\"]", ['C16']),
  ('inf-on-quadrature-accepted', 'sampling_method.py', "        if ca.depends_on(c, vertcat(stage.xq, stage.z)):\n", "        if False:\n", ['C15']),
  ('parent-guess-before-values', 'direct_method.py', "        self.set_parameter(stage, self.opti) # first: guesses may be expressions of the parameters\n        self.set_initial(stage, self.opti, stage._initial)\n", "        self.set_initial(stage, self.opti, stage._initial)\n        self.set_parameter(stage, self.opti)\n", ['C09']),
+ # --- mechanisms repaired after batch 10
+ ('inf-scale-ignored', 'sampling_method.py', "            opti.subject_to(self.eval_at_control(stage, c_spline, k), scale=scale, meta=meta)", "            opti.subject_to(self.eval_at_control(stage, c_spline, k), meta=meta)", ['C14']),
+ ('inf-scale-ignored-dc', 'direct_collocation.py', "self.add_inf_constraints(stage, opti, c, k, i, meta, scale=args[\"scale\"])", "self.add_inf_constraints(stage, opti, c, k, i, meta)", ['C14']),
+ ('bspline-on-free-knots-accepted', 'sampling_method.py', "            if isinstance(self.time_grid, FreeGrid) and (stage.variables['bspline'] or stage.parameters['bspline']):\n", "            if False:\n", ['C17']),
 ]
 
 def main():
